@@ -14,6 +14,11 @@ Inductive hcase : Type :=
        observed result, raw dump afterwards, number of store calls made (compared when >= 0) *)
 | HCrash (base : list op) (o : op) (k : Z) (dump : T)
     (* run base, then o interrupted at store call k (k < 0: not interrupted); raw dump after reopening *)
+| HRange (entries : list (value * bytes)) (rs re : value) (sinc einc whole reverse : bool) (stop : Z) (obs : T)
+    (* an index on ("c","f") populated through Add, then IterateRange (or Iterate when [whole]) with a
+       consumer that stops after [stop] ids (stop < 0: never); observed: the ids visited, in order *)
+| HCursor (keys : list bytes) (forward : bool) (target : bytes) (obs : T)
+    (* store-level cursor contract: keys written (with empty values), Seek(target), then iterate *)
 | HDocSet (d : obj) (name : bytes) (g : goval) (probe : bytes) (obs : T). (* Set then Get/Has of probe *)
 
 (* one history: stop at the first disagreement; report (index, model result, model dump if compared) *)
@@ -62,6 +67,21 @@ Definition check_case (c : hcase) : list T :=
       let db := snd (run_ops empty_db base) in
       let '(t, st) := exec_op o (fresh_rstate db (if k <? 0 then None else Some (Z.to_nat k))) in
       expect (T_of_kv (durable (r_db st))) dump
+  | HRange entries rs re sinc einc whole reverse stop obs =>
+      let c := [99%N] in let f := [102%N] in
+      let body : M (list bytes) :=
+        (fix add (l : list (value * bytes)) : M unit :=
+           match l with [] => ret tt | (v, id) :: t => idx_add c f id v ;;; add t end) entries ;;;
+        let on_id := fun (id : bytes) (acc : list bytes) =>
+                       ret (id :: acc, negb (Z.of_nat (length acc) + 1 =? stop)) in
+        (if whole then idx_iterate on_id c f reverse []
+         else idx_iterate_range on_id c f (mkRange rs re sinc einc) reverse []) in
+      let out := with_tx body None empty_db in
+      expect (match o_res out with Ok l => TL [TZ 0; TL (map TB (rev l))] | Err e => T_err e end) obs
+  | HCursor keys forward target obs =>
+      let s := fold_left (fun s k => kv_set k SEmpty s) keys [] in
+      let cur := cursor_seek forward target (if forward then s else rev s) in
+      expect (TL (map (fun e => TB (fst e)) cur)) obs
   | HDocSet d name g probe obs =>
       let d' := doc_set_go name g d in
       expect (TL [T_of_doc d'; Tbool (doc_has probe d'); T_of_value (doc_get probe d')]) obs
